@@ -16,6 +16,15 @@ type Clause struct {
 	Name string // optional label  "name: expr"
 }
 
+// EnumSpec: an obligation family enumerated from go/types (one obligation per struct field).
+type EnumSpec struct {
+	Obj    string
+	E      Expr
+	Func   string
+	Arg    int
+	Except map[string]bool
+}
+
 type LoopSpec struct {
 	Ordinal    int      // 1-based loop ordinal in header block order
 	Vars       []string // anchor: phi names expected at that header
@@ -33,6 +42,8 @@ type Unit struct {
 	Modifies []string // raw items; nil = inferred; "nothing"
 	HasMod   bool
 	ModInferred bool // modifies = the inferred write set of the body, plus the listed items
+	Pins     []EnumSpec // pins OBJ [except f,...]: every field of OBJ's struct type is assigned on every path
+	Visits   []EnumSpec // visits OBJ FUNC ARGIDX [except f,...]: every (pointer) field of OBJ is passed to FUNC
 	Loops    map[int]*LoopSpec
 	Opts     map[string]bool // e.g. "noinfer", "arith", "nosafety"
 	File     string
@@ -93,7 +104,7 @@ func NewContracts() *Contracts {
 	return &Contracts{Units: map[string]*Unit{}, Specs: map[string]*SpecFunc{}, Ghosts: map[string]*GhostVar{}, GhostFields: map[string]map[string]*GhostField{}}
 }
 
-var clauseKeywords = map[string]bool{"requires": true, "ensures": true, "modifies": true, "invariant": true,
+var clauseKeywords = map[string]bool{"pins": true, "visits": true, "requires": true, "ensures": true, "modifies": true, "invariant": true,
 	"decreases": true, "loop": true, "func": true, "spec": true, "define": true, "axiom": true, "ghost": true,
 	"opts": true, "pure": true, "end": true, "trusted": true}
 
@@ -228,6 +239,35 @@ func (c *Contracts) ParseFile(path, pkgPath string) error {
 				cur.Requires = append(cur.Requires, cl)
 			} else {
 				cur.Ensures = append(cur.Ensures, cl)
+			}
+		case "pins", "visits":
+			if cur == nil {
+				return fmt.Errorf("%s:%d: %s outside func", path, r.line, r.kw)
+			}
+			text := r.text
+			es := EnumSpec{Except: map[string]bool{}}
+			if i := strings.Index(text, " except "); i >= 0 {
+				for _, f := range strings.Split(text[i+8:], ",") {
+					es.Except[strings.TrimSpace(f)] = true
+				}
+				text = strings.TrimSpace(text[:i])
+			}
+			fields := strings.Fields(text)
+			es.Obj = fields[0]
+			e, err := ParseExpr(es.Obj)
+			if err != nil {
+				return fmt.Errorf("%s:%d: %v", path, r.line, err)
+			}
+			es.E = e
+			if r.kw == "visits" {
+				if len(fields) != 3 {
+					return fmt.Errorf("%s:%d: visits OBJ FUNC ARGINDEX [except ...]", path, r.line)
+				}
+				es.Func = fields[1]
+				fmt.Sscanf(fields[2], "%d", &es.Arg)
+				cur.Visits = append(cur.Visits, es)
+			} else {
+				cur.Pins = append(cur.Pins, es)
 			}
 		case "modifies":
 			if cur == nil {
